@@ -216,7 +216,9 @@ pub fn cmd_defrag_stream(args: &[String]) -> i32 {
         let o = Op { op: op.to_string(), ct, ver: 0x0303, data };
         let r = apply(p, &o);
         let k = r["res"]["k"].as_str().unwrap_or("").to_string();
-        writeln!(out, "{}", json!({"op": op, "ct": ct, "len": o.data.len(), "k": k, "e": r["res"]["e"], "n": r["res"]["n"],
+        // decl: the total size (header included) the record's first handshake message declares, when the record starts with a header
+        let decl = if ct == 22 && o.data.len() >= 4 { 4 + ((o.data[1] as u64) << 16 | (o.data[2] as u64) << 8 | o.data[3] as u64) } else { 0 };
+        writeln!(out, "{}", json!({"op": op, "ct": ct, "len": o.data.len(), "decl": decl, "k": k, "e": r["res"]["e"], "n": r["res"]["n"],
                                    "inprog": r["inprog"], "buflen": r["buflen"], "alloc": r["alloc"]})).unwrap();
         k
     };
@@ -242,6 +244,28 @@ pub fn cmd_defrag_stream(args: &[String]) -> i32 {
     emit(&mut p, "parse_record", 22, chunk.clone(), &mut out);
     emit(&mut p, "reset", 0, vec![], &mut out);
     emit(&mut p, "parse_record", 22, vec![0, 0, 0, 0], &mut out);
+    // a message that COMPLETES just below the limit (10 470 004 bytes in 16 KiB records), then, on the same parser, a message in two
+    // fragments: after a completion the parser is fresh, whatever the size of what it has just delivered
+    let total: usize = 10_470_004;
+    let body = total - 4;
+    let mut first = vec![20u8, (body >> 16) as u8, (body >> 8) as u8, body as u8];
+    first.extend((0..16380u32).map(|i| (i * 5 % 256) as u8));
+    let mut sent = first.len();
+    emit(&mut p, "parse_record", 22, first, &mut out);
+    while sent < total {
+        let n = 16384.min(total - sent);
+        emit(&mut p, "parse_record", 22, vec![3u8; n], &mut out);
+        sent += n;
+    }
+    emit(&mut p, "parse_record", 22, vec![16, 0, 0, 6, 1, 2], &mut out);
+    emit(&mut p, "parse_record", 22, vec![3, 4, 5, 6], &mut out);
+    emit(&mut p, "parse_record", 22, vec![14, 0, 0, 0], &mut out);
+    // a very long run of tiny continuation records (70 000 one-byte records) of a message that stays incomplete, then an empty one
+    emit(&mut p, "reset", 0, vec![], &mut out);
+    emit(&mut p, "parse_record", 22, vec![11, 0xff, 0xff, 0xff, 0], &mut out);
+    for i in 0..70_000u32 { emit(&mut p, "parse_record", 22, vec![(i % 251) as u8], &mut out); }
+    emit(&mut p, "parse_record", 22, vec![], &mut out);
+    emit(&mut p, "parse_record", 20, vec![1], &mut out);
     out.flush().unwrap();
     0
 }
